@@ -36,7 +36,7 @@ ASSUMPTIONS = [
 ]
 SITE_GRAMMAR = "[clause, object-kind-or-operator, failure-kind, detail]"
 
-UNITS = ["meter", "kilometer", "microfortnight", "kilometer / hour", "degC", "delta_degC / meter", "percent", "", "newton * meter ** 2 / second ** 3", "megaparsec ** -1 * kilometer / second", "meter ** 0.1 / second ** 0.3"]
+UNITS = ["meter", "kilometer", "microfortnight", "kilometer / hour", "degC", "delta_degC / meter", "percent", "", "newton * meter ** 2 / second ** 3", "megaparsec ** -1 * kilometer / second", "meter ** 0.1 / second ** 0.3", "meter ** 0.3333333333333333 * second ** -1.2345678"]
 PROTOCOLS = [0, 1, 2, 3, 4, 5]
 
 
